@@ -34,6 +34,14 @@ THEOREMS = [
     "Typedpy.C12.allRequired_constant_example",
     "Typedpy.C12.extend_drops_required",
     "Typedpy.C12.derive_example",
+    "Typedpy.C12.derive_total",
+    "Typedpy.C12.derive_raises_iff",
+    "Typedpy.C12.derive_flags_not_copied",
+    "Typedpy.C12.flags_example",
+    "Typedpy.reachable_good",
+    "Typedpy.reachable_hasStructure",
+    "Typedpy.c12_derive_total",
+    "Typedpy.c12_checks_derived_ok",
 ]
 RULE = ("source classes from hierarchies of 1..5 classes (mutable, ImmutableStructure / FinalStructure roots, "
         "inheritance, multiple bases, mixins, defaults of every spelling, Constants, _ignore_none own / inherited); 40% of "
